@@ -30,7 +30,7 @@ class InjectedSendFailure(Exception):
 
 
 class Driver:
-    def __init__(self, policy):
+    def __init__(self, policy, raising_listener=False):
         from vlib.world import World
         from aioslsk.protocol.messages import AddUser, RemoveUser
         from aioslsk.protocol.primitives import UserStats
@@ -236,6 +236,12 @@ class Driver:
         def on_state(e):
             if e.user.name in USERS:
                 drv.out(e.user.name, (2, STATE_CODE[e.state.value]))
+        if raising_listener:
+            def failing(e):
+                if e.user.name in USERS:
+                    raise RuntimeError('listener failed')
+            self._failing = failing
+            w.client.events.register(UserTrackingStateChangedEvent, self._failing, priority=10)
         self._listener = on_state           # the event bus only keeps weak references
         w.client.events.register(UserTrackingStateChangedEvent, self._listener)
         self.delay_rng = None
@@ -370,14 +376,17 @@ class Driver:
                     delattr(obj, name)
         finally:
             try:
-                self.w.stop()
+                # bounded: a worker that survives its cancellation would otherwise keep client.stop() waiting for ever
+                self.w.loop.run_coro(self.w.client.stop(), timeout_virtual=30.0, max_iters=20000)
+                self.w.close()
             except Exception:
                 self.w.close()
 
 
 def run_script(script):
     """script = {'policy': {user: [...]}, 'reply_delays': [[user, k, d], ...], 'ops': [...]}"""
-    d = Driver(script.get('policy', {u: [] for u in USERS}) | {u: [] for u in USERS if u not in script.get('policy', {})})
+    d = Driver(script.get('policy', {u: [] for u in USERS}) | {u: [] for u in USERS if u not in script.get('policy', {})},
+               raising_listener=bool(script.get('raising_listener')))
     d.reply_delays = {(u, k): dl for u, k, dl in script.get('reply_delays', [])}
     try:
         for op in script['ops']:
@@ -686,7 +695,10 @@ def gen_script(rng, max_calls=8):
             closed = True
             if rng.random() < 0.7:
                 ops.append(['step', rng.choice([1, 2, 3, 4, 5, 6])])
-    return {'policy': policy, 'reply_delays': delays, 'ops': ops, 'settle_rounds': rng.choice([0, 1, 2, 2])}
+    sc = {'policy': policy, 'reply_delays': delays, 'ops': ops, 'settle_rounds': rng.choice([0, 1, 2, 2])}
+    if rng.random() < 0.15:
+        sc['raising_listener'] = True        # an application listener of the tracking events that fails (EventBus.emit goes on)
+    return sc
 
 
 def gen_glue_script(rng):
@@ -753,6 +765,10 @@ def directed_scripts(tier):
         out.append({'policy': {'bob': ['exists'] * 4, 'carol': ['exists'] * 4},
                     'ops': [['xfer_add', 0], ['xfer_add', 1], ['cycle'], ['step', 8], ['close'], ['step', 8], ['relogin'], ['cycle'], ['step', k], ['xfer_abort', 1], ['cycle']],
                     'settle_rounds': 1})
+    # helpers: a failing listener of UserTrackingStateChangedEvent must not disturb the worker (EventBus.emit swallows it)
+    out.append({'policy': {'bob': ['notexists', 'exists']}, 'raising_listener': True,
+                'ops': [['track', 0, 1], ['step', 9], ['track', 0, 4], ['step', 2], ['adv', 601], ['step', 9], ['untrack', 0, 5], ['step', 6]], 'settle_rounds': 1})
+    out.append({'policy': pol, 'raising_listener': True, 'ops': [['xfer_add', 0], ['cycle'], ['step', 8], ['close'], ['step', 8], ['relogin'], ['cycle']], 'settle_rounds': 1})
     # retry expiry with and without a remaining reason
     out.append({'policy': {'bob': ['silence', 'exists']}, 'ops': [['track', 0, 1], ['step', 5], ['adv', 10.5], ['step', 6], ['adv', 10.5], ['step', 8]], 'settle_rounds': 0})
     out.append({'policy': {'bob': ['sendfail', 'notexists', 'exists']}, 'ops': [['track', 0, 1], ['step', 5], ['adv', 10.5], ['step', 8], ['untrack', 0, 1], ['step', 5], ['adv', 601], ['step', 5]], 'settle_rounds': 1})
@@ -821,6 +837,8 @@ def run(run: Run):
     for s in directed_scripts(run.tier):
         do(s, 'directed')
     n = 250 if run.tier == "quick" else 1200
+    if not proved:
+        n *= 3          # a broken tie: search longer for a concrete failing input
     for _ in range(n):
         do(gen_script(run.rng), 'random')
     for _ in range(40 if run.tier == "quick" else 250):
